@@ -199,6 +199,11 @@ func Tags(ch []Call, inline int, us []*Unit) []string {
 		}
 		// a named-argument string (clause.NamedExpr) holding AND/OR, handed to
 		// Or() (OR inside) or Not() (AND or OR inside)
+		// named arguments, but the text has a '?' inside a quoted literal: gorm
+		// classifies the string as positional and drops that '?'
+		if u.Render == "named-q" {
+			add("named-args-question-mark-in-literal")
+		}
 		nconn := u.NamedConn
 		if u.Render == "named" {
 			nconn = u.Conn
